@@ -15,6 +15,7 @@ for f in PARSER_FNS:
                                  f'for every token vector and cursor; callees by contract (cursor frame, Ok => Some, Ok => progress)',
                             harness='verus:Parser::' + f, tier='quick'))
 OBLIGATIONS.append(ob('C10.date.range', 'verif_frag::dateprecision::c13_precision', 'time-of-day block of parse_datetime (verbatim): a literal with day / hour / minute / second precision yields start = the given fields padded with 0 and finish = padded with 23:59:59 (closed interval it covers); a time of day outside 00:00:00..23:59:59 is rejected before chrono is called (no unwrap on None); for all captured values < 100', units=['dateprecision']))
+OBLIGATIONS.append(ob('C10.calc.total', 'verif_frag::calc::c15_calc_total', 'evaluator arithmetic does not panic on zero or fractional divisors for / and % (same harness as C15.calc.total)', units=['cmp', 'calc'], complete=False, bound='5 concrete operand pairs'))
 CANARIES = []
 ASSUMPTIONS = ['termination is proved for the 19 parser methods under contract only', 'is_root_option_keyword is trusted (external_body: string prefix tests, total)']
 NOT_COVERED = ['parse_roots, Parser::parse, the lexer (not under contract)', 'termination of the lexer, of parse_roots and of the search itself', 'evaluator-side literal errors other than booleans (regex, dates)', 'process-level behaviour']
